@@ -30,6 +30,18 @@ def cases(draw, tier="quick"):
     return {"spec": spec, "cfg": cfg, "hists": hists, "seed": draw(st.integers(0, 2 ** 31))}
 
 
+def fixed_cases(tier):
+    """Name tables beyond the reach of a narrow offset: total name bytes just above 256 and just above 65536,
+    with `names` as the only user of the names and together with as_str / from_str."""
+    out = []
+    for spec in C.name_table_specs():
+        n = len(spec["variants"])
+        total = sum(len(v["rename"]) for v in spec["variants"])
+        for feats, modes in ((["names"], {}), (["names", "as_str", "from_str"], {"as_str": "table", "from_str": "table"}), (["names", "iter", "as_str"], {})):
+            out.append({"spec": spec, "cfg": S.simple_config(feats, modes), "hists": [["n", "b", "collect"], ["nth:%d" % (n - 2), "collect"], ["nthb:1", "rev"]], "seed": total})
+    return out
+
+
 def run_case(case):
     out = J.Outcome()
     spec, cfg = case["spec"], case["cfg"]
